@@ -902,6 +902,8 @@ def compositions(n, with_empty):
 W_OPS = [('read', None), ('read', -1), ('read', 0), ('read', 1), ('read', 2), ('read', 100),
          ('readline', None), ('readline', -1), ('readline', 2), ('readlines', None), ('readlines', 2),
          ('next',), ('iter',), ('exhaust', None), ('exhaust', -1), ('close',)]
+W_OPS_TRIPLES = [('read', None), ('read', 0), ('read', 1), ('read', 2), ('readline', None), ('readline', 2),
+                 ('readlines', 2), ('next',), ('iter',), ('exhaust', None), ('close',)]
 W_OPS_SMALL = [('read', None), ('read', 1), ('read', 2), ('readline', None), ('readline', 1), ('readlines', 3),
                ('next',), ('exhaust', 1)]
 W_BODIES = [b'', b'a', b'ab\n', b'a\nb\nc', b'\n\nxy', b'abcdefg\n']
@@ -912,6 +914,8 @@ A_OPS = [('read', None), ('read', -1), ('read', 0), ('read', 1), ('read', 2), ('
          ('anext',), ('exhaust',), ('close',)]
 A_OPS_PAIRS = [('read', None), ('read', 0), ('read', 1), ('read', 2), ('read', 100), ('iter',), ('iterk', 1, 'exhaust'),
                ('iterk', 1, 'none'), ('anext',), ('exhaust',), ('close',)]
+A_OPS_TRIPLES = [('read', None), ('read', 1), ('read', 2), ('read', 100), ('iter',), ('iterk', 1, 'none'), ('anext',),
+                 ('exhaust',), ('close',)]
 A_OPS_SMALL = [('read', 1), ('read', 2), ('read', 3), ('readall',), ('iter',), ('exhaust',), ('iterk', 2, 'exhaust'),
                ('iterk', 1, 'break'), ('anext',)]
 # operations whose await on receive() gets interrupted (fault part), and what the application does afterwards
@@ -1008,6 +1012,8 @@ def asgi_configs(body, chunkings):
         for tag, events in scripts_for(body, chunking):
             wire, ended = asgi_wire(events)
             for clclass, clh, cl in asgi_cl_classes(len(wire), ended == 'open'):
+                if clclass == 'empty-header' and tag != 'final-false':
+                    continue        # reads like 'absent'; kept on one script ending per chunking
                 yield (events, clh, cl, tag)
 
 
@@ -1195,23 +1201,28 @@ def run(rec):
                        'req.content_length before touching the stream']
     quick = rec.tier == 'quick'
     idx = 0
-    # ---------------- WSGI bounded-exhaustive
-    HW = 2 if quick else 3
+    # ---------------- WSGI bounded-exhaustive (sized by counts: ~80k cases quick, ~0.6M thorough)
+    HW = 2
     shorts = (None, 1) if quick else (None, 1, 2)
+    w_hists = list(histories(W_OPS, HW))
+    if not quick:
+        w_hists += list(itertools.product(W_OPS_TRIPLES, repeat=3))
+    w_small = list(itertools.product(W_OPS_SMALL, repeat=3 if quick else 4))
     for body in W_BODIES:
-        for cfg in wsgi_configs(body, shorts):
-            for h in histories(W_OPS, HW):
+        for wi, cfg in enumerate(wsgi_configs(body, shorts)):
+            for h in w_hists:
                 idx += 1
                 if idx % rec.nshards != rec.shard:
                     continue
                 wsgi_case(rec, cfg, h)
                 rec.case(('w', cfg, h) if nontrivial(h) else None)
-            for h in itertools.product(W_OPS_SMALL, repeat=HW + 1):
-                idx += 1
-                if idx % rec.nshards != rec.shard:
-                    continue
-                wsgi_case(rec, cfg, h)
-                rec.case(('w', cfg, h))
+            if quick or wi % 2 == 0:
+                for h in w_small:
+                    idx += 1
+                    if idx % rec.nshards != rec.shard:
+                        continue
+                    wsgi_case(rec, cfg, h)
+                    rec.case(('w', cfg, h))
     # ---------------- ASGI bounded-exhaustive
     HA = 2 if quick else 3
     fault_hists = [h for L in (1, 2) for h in itertools.product(A_OPS_FAULT, repeat=L) if legal_asgi(h)]
@@ -1222,9 +1233,8 @@ def run(rec):
             comps = comps[::3] if quick else comps[::2]
         hs = [()] + [(o,) for o in A_OPS]
         hs += list(itertools.product(A_OPS_PAIRS if quick else A_OPS, repeat=2))
-        if not quick:
-            hs += list(itertools.product(A_OPS_PAIRS, repeat=3))
         hs = [h for h in hs if legal_asgi(h)] + A_SUSPENDED
+        triples = [] if quick else [h for h in itertools.product(A_OPS_TRIPLES, repeat=3) if legal_asgi(h)]
         small_hists = [h for h in itertools.product(A_OPS_SMALL, repeat=HA + 1) if legal_asgi(h)]
         fi = 0
         singles = [h for h in hs if len(h) <= 1] + A_SUSPENDED
@@ -1235,7 +1245,14 @@ def run(rec):
                     continue
                 asgi_case(rec, cfg, h)
                 rec.case(('a', cfg, h) if nontrivial(h) else None)
-            if ci % 24 == 0:
+            if triples and ci % 2 == 0:
+                for h in triples:
+                    idx += 1
+                    if idx % rec.nshards != rec.shard:
+                        continue
+                    asgi_case(rec, cfg, h)
+                    rec.case(('a', cfg, h))
+            if ci % (32 if quick else 48) == 0:
                 for h in small_hists:
                     idx += 1
                     if idx % rec.nshards != rec.shard:
@@ -1260,16 +1277,17 @@ def run(rec):
                             rec.case(('a', fcfg, h))
     rec.exhaustive = True
     if rec.shard == 0:
-        rec.note('exhaustive within bounds: WSGI %d bodies x Content-Length classes x server styles %r, histories <= %d over %d '
-                 'op shapes + length %d over %d shapes; ASGI %d bodies, all chunkings (every %s for the 5-byte body) x all '
-                 'script endings x Content-Length classes, single operations over %d shapes, pairs over %d shapes%s, '
+        rec.note('exhaustive within bounds: WSGI %d bodies x Content-Length classes x server styles %r: histories <= 2 over %d '
+                 'op shapes%s, length %d over %d shapes%s; ASGI %d bodies, all chunkings (every %s for the 5-byte body) x all '
+                 'script endings x Content-Length classes: single operations over %d shapes, pairs over %d shapes%s, '
                  'length %d over %d shapes on every %dth script, %d histories with an operation issued while the stepped '
                  'iterator is suspended; fault part: receive() number j in %r interrupted (raise; cancel on a subset) x '
                  'histories <= 2 over %d shapes on scripts with >= 3 events'
-                 % (len(W_BODIES), shorts, HW, len(W_OPS), HW + 1, len(W_OPS_SMALL), len(A_BODIES),
+                 % (len(W_BODIES), shorts, len(W_OPS), '' if quick else ', triples over %d shapes' % len(W_OPS_TRIPLES),
+                    3 if quick else 4, len(W_OPS_SMALL), '' if quick else ' on every 2nd configuration', len(A_BODIES),
                     'third' if quick else 'second', len(A_OPS), len(A_OPS_PAIRS if quick else A_OPS),
-                    '' if quick else ', triples over %d shapes' % len(A_OPS_PAIRS),
-                    HA + 1, len(A_OPS_SMALL), 24, len(A_SUSPENDED), fault_js, len(A_OPS_FAULT)))
+                    '' if quick else ', triples over %d shapes on every 2nd script' % len(A_OPS_TRIPLES),
+                    HA + 1, len(A_OPS_SMALL), 32 if quick else 48, len(A_SUSPENDED), fault_js, len(A_OPS_FAULT)))
     # ---------------- random
     rng = rec.rng
     k = 0
